@@ -262,6 +262,7 @@ def subchecks(tier, seed):
                 bounds={"formulas": fs, "frames": ["clean (6 rows)", "nulls (3 null cells)"], "variants_per_pair": 144}),
             Sub("variants-nullable-dtypes", drv, {"formulas": ["0 + n + a", "n + b", "0 + n:A + b", "a + A", "b:A"], "frames": ["nullable-dtypes"], "frame_objs": fr}, shard_depth=3,
                 bounds={"formulas": ["0 + n + a", "n + b", "0 + n:A + b", "a + A", "b:A"], "frame": "Int64 / Float64 columns holding pandas.NA", "variants_per_pair": "as in 'variants'"}),
-            Sub("subset-spec-variants", drv_subset, {"frames": ["clean", "categorical-dtype"] if quick else ["clean", "nulls", "nulls-shuffled-index", "categorical-dtype"], "frame_objs": fr},
+            # (frames without nulls only: a subset spec evaluates fewer factors and therefore legitimately drops fewer rows than its parent)
+            Sub("subset-spec-variants", drv_subset, {"frames": ["clean", "categorical-dtype"], "frame_objs": fr},
                 shard_depth=3, bounds={"parent_formulas": SUBSET_PARENTS, "kept_terms": "every non-empty proper subset of the parent's terms", "entries": SUBSET_ENTRIES,
                                        "outputs": "3 (parent) x 3 (requested)"})]
